@@ -149,11 +149,12 @@ function project(c, acorn, run) {
     res.v8 = [];
     const lex = Array.from(new Set(info.topLex.concat(infoOut.topLex))).sort();
     for (const ks of vectors) {
+      run.tick();
       const key = ks.join(',');
       if (seen.has(key)) continue;
       seen.add(key);
       const env = { seed: 1, budget: 3000, spec: true, bindings: free.map((name, i) => ({ name, kind: 'spec', k: ks[i] })).filter((b) => b.k !== 10) };
-      const loops = /\b(for|while|do)\b/.test(c.in) || /\b(for|while|do)\b/.test(c.out);
+      const loops = run.needsTimeout(c.in) || run.needsTimeout(c.out);
       const a = run.execute(c.in, env, lex, 0, loops ? 200 : 0);
       if (!a.obs || a.tdz) continue;                 // outside the domain under this environment
       let b = run.execute(c.out, env, lex, 0, loops ? 10000 : 0);
